@@ -24,9 +24,10 @@ import (
 //       prefixed to every rule cannot share any cache entry between rules.
 
 const c12IdentN = 12
+const identTotal = 64
 
 func init() {
-	for i := 0; i < c12IdentN; i++ {
+	for i := 0; i < identTotal; i++ {
 		plugins.RegisterTransformation(fmt.Sprintf("vident%d", i), func(s string) (string, bool, error) { return s, false, nil })
 	}
 }
